@@ -247,9 +247,10 @@ def main(argv=None):
                 "unknown": len(inconclusive),
                 "evaluations": agg["obligations"],
                 "distinct_nontrivial": agg["nontrivial"],
-                "rule": meta.get("rule", "one obligation per (work item, symbolic path, output cell); non-trivial = "
-                                         "involved at least one symbolic input and was not discharged syntactically "
-                                         "(needed at least one solver query)"),
+                "rule": meta.get("rule", "one obligation per (work item, symbolic path, output cell); counted as distinct non-trivial when "
+                                         "the implementation-side term of the obligation still contains at least one solver symbol "
+                                         "(i.e. it is a statement over all values of some input, not a comparison of two constants); "
+                                         "discharged_syntactically says how many of them normalised to 0 = 0 without a solver query"),
                 "work_items": n,
                 "symbolic_paths": agg["paths"],
                 "cells": agg["cells"],
